@@ -23,6 +23,7 @@ type monC05 struct {
 	baseMon
 	maxNodes int
 	elig     map[string][2]int // canary replica set -> range of eligible-node counts seen
+	failedOnce map[string]uint64 // replica set (ns/name) -> sequence number of the write that made its Canary-Failed condition true during its current stint as canary
 }
 
 func (*monC05) Name() string { return "C05" }
@@ -33,6 +34,7 @@ func (m *monC05) band(s *Sim) time.Duration {
 
 func (m *monC05) PostCall(s *Sim, c *Call) {
 	t := c.Task
+	m.noteFailed(s, c)
 	if c.Kind != KEDS || c.Verb != "updatestatus" || !c.Applied() || c.Pre == nil || c.Out == nil {
 		return
 	}
@@ -154,6 +156,21 @@ func (m *monC05) PostCall(s *Sim, c *Call) {
 	}
 	ann := v.EDS.Annotations
 	failed := ersCondTrue(&Y.Status, edsv1.ConditionTypeCanaryFailed)
+	if markSeq, ok := m.failedOnce[Y.Namespace+"/"+Y.Name]; !failed && ok {
+		// the mark was there during this canary, before this reconcile listed the replica sets, and has
+		// been erased since (by whatever): a canary marked failed is not promoted by elapsed time
+		var listSeq uint64
+		for _, lc := range t.Calls {
+			if lc.Verb == "list" && lc.Kind == KERS && lc.Err == nil {
+				listSeq = lc.Seq
+				break
+			}
+		}
+		if markSeq < listSeq {
+			failed = true
+			s.Probe("c05.promotion-after-erased-failure")
+		}
+	}
 	if val, ok := ann[edsv1.ExtendedDaemonSetCanaryValidAnnotationKey]; ok && val == y {
 		s.Probe("c05.validated")
 		return
@@ -571,5 +588,31 @@ func (m *monC05) checkUnreached(s *Sim, t *Task, v *SyncView, up *edsv1.Extended
 	s.Stats.NonVacuous["C15.gave-up"]++
 	if feasible >= want {
 		s.Violate("C15", "count", "unreached", "%s reports %q although %d valid nodes can be selected within the spread quota (replicas %d, %d kept)", t.Label(), t.Err.Error(), feasible, want, nKept)
+	}
+}
+
+// noteFailed remembers that a replica set carried Canary-Failed=True while it was the canary; the
+// memory ends when one of its syncs in another role is recorded (that is where the condition is
+// legitimately reset).
+func (m *monC05) noteFailed(s *Sim, c *Call) {
+	if c.Kind != KERS || !c.Applied() || c.Out == nil || (c.Verb != "updatestatus" && c.Verb != "patchstatus" && c.Verb != "update") {
+		return
+	}
+	post := &edsv1.ExtendedDaemonSetReplicaSet{}
+	_ = json.Unmarshal(c.Out, post)
+	if m.failedOnce == nil {
+		m.failedOnce = map[string]uint64{}
+	}
+	k := post.Namespace + "/" + post.Name
+	if ersCondTrue(&post.Status, edsv1.ConditionTypeCanaryFailed) {
+		if _, ok := m.failedOnce[k]; !ok {
+			m.failedOnce[k] = c.Seq
+		}
+		return
+	}
+	if c.Task.Ctrl == CtrlERS {
+		if v := c.Task.View(); v.EDS != nil && v.ERS != nil && v.Role() != "canary" {
+			delete(m.failedOnce, k)
+		}
 	}
 }
